@@ -41,7 +41,7 @@ PROPS = {
         "design_ref": "DESIGN.md §3.14 FRESHNAME/PREC, §3.21, §4 C17",
     },
     "C02": {
-        "rules": ["EXH", "PREC", "DIVMOD", "ALGID", "FRESHNAME", "ENVNAME", "SCALARREF", "WINDOWHOOK", "BACKPIPE", "WINALIAS@live", "FREEONCE"],
+        "rules": ["EXH", "PREC", "DIVMOD", "ALGID", "CONDSPEC", "FRESHNAME", "ENVNAME", "SCALARREF", "WINDOWHOOK", "BACKPIPE", "WINALIAS@live", "FREEONCE"],
         "thorough": [],
         "technique": "static analysis: exhaustive-lowering, C-precedence table embedding, sign-proof dominance for / and %, sibling agreement on by-reference scalars, window-hook call rule",
         "level_text": "Structural clauses of code generation, decided for all programs from the source: lowering dispatches are exhaustive; the C "
@@ -136,7 +136,7 @@ PROPS = {
         "design_ref": "DESIGN.md §3.5, §3.16, §4 C05",
     },
     "C10": {
-        "rules": ["CFGMOD", "EQVGATE", "CFGSHAPE", "EQVSHAPE", "CONDSPEC", "VERDICT"],
+        "rules": ["CFGMOD", "EQVGATE", "CFGSHAPE", "EQVSHAPE", "ENVSHADOW", "CONDSPEC", "VERDICT"],
         "thorough": [],
         "technique": "static analysis: must-call + def-use threading of the changed-field set from the check to the recorded derivation; dominance of the equivalence gate over the callee swap",
         "level_text": "Structural clauses: every primitive that inserts or deletes a configuration write or swaps a callee obtains the possibly-changed field set from "
@@ -163,7 +163,7 @@ PROPS = {
         "design_ref": "DESIGN.md §3.13, §4 C11",
     },
     "C19": {
-        "rules": ["ANNOTONLY", "PREDSONLY", "PREDSCOPE", "PEVAL", "READKINDS", "CHILDREN", "TRAV@C19", "TRAVBASE", "NOPROV", "EXH"],
+        "rules": ["ANNOTONLY", "PREDSONLY", "PREDSCOPE", "CONDSPEC", "PEVAL", "READKINDS", "CHILDREN", "TRAV@C19", "TRAVBASE", "NOPROV", "EXH"],
         "thorough": [],
         "technique": "static analysis: written-field sets of the annotation primitives, constructor-argument identity for add_assertion, substitution/traversal completeness for partial_eval",
         "level_text": "Structural clauses: set_precision/set_memory/set_window, parallelize_loop, rename and make_instr write only annotation fields (type/mem/is_window/src_type/as_tensor, loop_mode, "
@@ -188,7 +188,7 @@ PROPS = {
         "design_ref": "DESIGN.md §3.6, §3.21, §4 C12",
     },
     "C03": {
-        "rules": ["FRONTPIPE", "OBLIG", "BOUNDFORM", "TYPEDISC", "CONDSPEC", "WINALIAS@bounds", "ALIASCLOSED", "WINCOMPOSE", "EXH", "TRAV@C03"],
+        "rules": ["FRONTPIPE", "OBLIG", "BOUNDFORM", "OPTPRED", "TYPEDISC", "CONDSPEC", "WINALIAS@bounds", "ALIASCLOSED", "WINCOMPOSE", "EXH", "TRAV@C03"],
         "thorough": [],
         "technique": "static analysis: ordered must-call pipeline at definition time, per-statement-kind obligation table for the bounds checker, formula-shape patterns (0 <= i < dim, 0 < size, 0 <= hi-lo), alias-closure of bounds effects",
         "level_text": "Structural clauses: every parsed procedure passes TypeChecker -> CheckBounds -> Check_Aliasing unconditionally, on the same object, and recorded errors raise; "
